@@ -344,6 +344,10 @@ def c02(tier, seed, only=None):
     # an action that goes pending (inquiry) while other branches still have work; resume while it is pending
     jobs += _interim_jobs(tier, mons, dict(hold=1, pause=1, resume=2, horizon=60, resume_only_at_rest=False,
                                            dev=4 if tier == "quick" else 5))
+    # a plain action goes pending beside a with-items task that still has items to schedule
+    for s in gen.f4_all(tier):
+        if s.name in ("F4/items-n3-k1-beside-remediated", "F4/items-n3-k2-sibling") and tier == "quick":
+            jobs.append(job(s, dict(hold=1, resume=1, horizon=60, resume_only_at_rest=False, dev=4), mons))
     jobs = _filter(jobs, only)
     results = runner.run_jobs(jobs, seed=seed)
     rule = (
